@@ -129,7 +129,7 @@ def run_case(case, tier):
 
 def gen_case(rng, tier):
     long_pool = HX.make_long_pool(rng) if rng.random() < 0.2 else None
-    writes, m = HX.gen_writes(rng, rng.randint(2, 8 if tier == "quick" else 14), long_pool)
+    writes, m = HX.gen_writes(rng, rng.randint(2, 8 if tier == "quick" else 14), long_pool, tiny=rng.random() < 0.3)
     return {"prune": rng.random() < 0.3, "writes": writes, "m": m, "paths": gen_paths(rng, m, tier), "seed": rng.randrange(1 << 30)}
 
 
